@@ -389,6 +389,12 @@ def run(ctx):
     for magic in (bytes([0x86, 0x48, 0xf0, 0x9f, 0x8c, 0x90, 0xf0, 0x9f, 0x93, 0xa6, 0x44]) + b'b1\0\0', bytes([0x85, 0x48, 0xf0, 0x9f, 0x8c, 0x90, 0xf0, 0x9f, 0x93, 0xa6, 0x44]) + b'b2\0\0'):
         for _ in range(20 * scale):
             ops.append(f'c10.bundle {hexs(magic + rbytes(rng, rng.randrange(0, 60)))}')
+    # b1 index entries with odd Variants values (axes without values, empty members, repeated axes), built by hand
+    from bundlelib import craft_b1, craft_response
+    okr = craft_response([(b':status', b'200')], b'ok')
+    for vv in (b'accept-encoding, accept-language;en', b'accept-language;en, accept-encoding', b'accept-encoding', b'a, b, c;x', b'a;x, b, c;y;z', b',', b'a;x,', b'a;;x', b';', b'a;x;x', b'a;x, a;y', b'a;' + b';'.join(b'v%d' % i for i in range(300))):
+        for nl in (1, 0, 2):
+            ops.append(f'c10.bundle {hexs(craft_b1([(b"https://example.com/v", vv, [okr, okr], nl), (b"https://example.com/ok", b"", [okr], None)]))}')
     # many entries, disjoint responses (linear) -- control for the finding below
     ops.append(f'c10.bundle {hexs(f15_witness(1, 200000))}')
 
